@@ -195,7 +195,7 @@ func runC20(c *ctx, r *Report) error {
 		mu.Unlock()
 	}
 	defer func() { actionlint.VerifTrace = nil }()
-	shells := []string{"", "", "bash", "sh", "python", "pwsh", "bash -e {0}", "python {0}", "cmd"}
+	shells := []string{"", "", "bash", "sh", "python", "pwsh", "bash -e {0}", "python {0}", "cmd", "sh -e {0}", "sh {0}", "bash --noprofile --norc -eo pipefail {0}", "shx {0}", "bashful"}
 	dirs := []string{"ok", "ok", "ok", "issues=1", "issues=3", "crash", "kill", "garbage", "empty", "killissues"}
 	for set := 0; set < nSets; set++ {
 		nFiles := 1 + rng.Intn(4)
@@ -221,6 +221,24 @@ func runC20(c *ctx, r *Report) error {
 				f.jobs = append(f.jobs, j)
 			}
 			files = append(files, f)
+		}
+		// directed set: every shell spelling (bare name, custom template with options, a longer word with the same prefix)
+		// once at step, once at job and once at workflow level; no failing invocation, so delivery is checked
+		if set == 3 {
+			nFiles = 0
+			f := &c20File{}
+			j := c20Job{}
+			for _, sh := range shells[2:] {
+				j.steps = append(j.steps, c20Step{shell: sh, directive: "ok", sleepMs: 1, script: "echo step " + sh})
+			}
+			f.jobs = append(f.jobs, j)
+			for _, sh := range shells[2:] {
+				f.jobs = append(f.jobs, c20Job{defShell: sh, steps: []c20Step{{directive: "ok", sleepMs: 1, script: "echo job " + sh}}})
+			}
+			files = append(files, f)
+			for _, sh := range shells[2:] {
+				files = append(files, &c20File{defShell: sh, jobs: []c20Job{{steps: []c20Step{{directive: "ok", sleepMs: 1, script: "echo wf " + sh}}}}})
+			}
 		}
 		for fi := 0; fi < nFiles; fi++ {
 			f := &c20File{defShell: shells[rng.Intn(6)], defWD: rng.Intn(3) == 0}
@@ -265,6 +283,7 @@ func runC20(c *ctx, r *Report) error {
 			stdin  string
 			dir    string
 			runPos string
+			sh     string // shellcheck: the value expected after --shell
 		}
 		var expects []expect
 		// the decisions of the proved model (AL.ShellVisit, theorems AL.Props.C20Shell): per file, per job, per step the
@@ -377,7 +396,7 @@ func runC20(c *ctx, r *Report) error {
 						if sh == "bash" {
 							setup = "set -eo pipefail"
 						}
-						expects = append(expects, expect{"shellcheck", setup + "\n" + actionlint.VerifSanitizeExpressionsInScript(script) + "\n", s.directive, ""})
+						expects = append(expects, expect{"shellcheck", setup + "\n" + actionlint.VerifSanitizeExpressionsInScript(script) + "\n", s.directive, "", sh})
 					}
 					// pyflakes: step shell, then job default, then workflow default
 					py := false
@@ -400,7 +419,7 @@ func runC20(c *ctx, r *Report) error {
 					}
 					py = mPy
 					if py {
-						expects = append(expects, expect{"pyflakes", actionlint.VerifSanitizeExpressionsInScript(script), s.directive, ""})
+						expects = append(expects, expect{"pyflakes", actionlint.VerifSanitizeExpressionsInScript(script), s.directive, "", ""})
 					}
 				}
 			}
@@ -474,11 +493,23 @@ func runC20(c *ctx, r *Report) error {
 					tool = "shellcheck"
 				}
 			}
+			if tool == "shellcheck" {
+				// the dialect shellcheck is told to assume travels in the arguments, not in the script
+				for i, a := range rec.Args {
+					if a == "--shell" && i+1 < len(rec.Args) {
+						tool += " --shell " + rec.Args[i+1]
+					}
+				}
+			}
 			got[tool+"|"+rec.Stdin]++
 		}
 		want := map[string]int{}
 		for _, e := range expects {
-			want[e.tool+"|"+hex.EncodeToString([]byte(e.stdin))]++
+			t := e.tool
+			if t == "shellcheck" {
+				t += " --shell " + e.sh
+			}
+			want[t+"|"+hex.EncodeToString([]byte(e.stdin))]++
 		}
 		if !anyFail {
 			for k, n := range want {
